@@ -2238,21 +2238,30 @@ impl BytecodeVM {
             Op::LShift { dst, left, right } => {
                 let left_val = to_int32(interp.coerce_to_number(self.get_reg(left))?);
                 let right_val = to_uint32(interp.coerce_to_number(self.get_reg(right))?) & 0x1F;
-                self.set_reg(dst, JsValue::Number(left_val.wrapping_shl(right_val) as f64));
+                self.set_reg(
+                    dst,
+                    JsValue::Number(left_val.wrapping_shl(right_val) as f64),
+                );
                 Ok(OpResult::Continue)
             }
 
             Op::RShift { dst, left, right } => {
                 let left_val = to_int32(interp.coerce_to_number(self.get_reg(left))?);
                 let right_val = to_uint32(interp.coerce_to_number(self.get_reg(right))?) & 0x1F;
-                self.set_reg(dst, JsValue::Number(left_val.wrapping_shr(right_val) as f64));
+                self.set_reg(
+                    dst,
+                    JsValue::Number(left_val.wrapping_shr(right_val) as f64),
+                );
                 Ok(OpResult::Continue)
             }
 
             Op::URShift { dst, left, right } => {
                 let left_val = to_uint32(interp.coerce_to_number(self.get_reg(left))?);
                 let right_val = to_uint32(interp.coerce_to_number(self.get_reg(right))?) & 0x1F;
-                self.set_reg(dst, JsValue::Number(left_val.wrapping_shr(right_val) as f64));
+                self.set_reg(
+                    dst,
+                    JsValue::Number(left_val.wrapping_shr(right_val) as f64),
+                );
                 Ok(OpResult::Continue)
             }
 
